@@ -493,6 +493,20 @@ func c16Edits() []edit {
 				j.SDs[0].Labels["env"] = other(j.SDs[0].Labels["env"], "qa", "qa2")
 				return true
 			}),
+			je("sd/client-secret", func(j *cfggen.Job) bool {
+				if len(j.SDs) == 0 || j.SDs[0].Auth.Secret == "" {
+					return false
+				}
+				j.SDs[0].Auth.Secret += "-rotated"
+				return true
+			}),
+			je("sd/client-username", func(j *cfggen.Job) bool {
+				if len(j.SDs) == 0 || !(j.SDs[0].Auth.Kind == "basic" || j.SDs[0].Auth.Kind == "oauth2") {
+					return false
+				}
+				j.SDs[0].Auth.User += "2"
+				return true
+			}),
 			je("sd/add-section", func(j *cfggen.Job) bool {
 				j.SDs = append(j.SDs, cfggen.SD{Kind: "dns", Option: "added.example"})
 				return true
